@@ -451,6 +451,15 @@ def channel_send_paths(ctx):
                     e2 = dict(env)
                     e2[st.targets[0].id] = _sub(st.value, env)
                     new.append((guards, writes, e2, done))
+                elif isinstance(st, ast.Assign) and len(st.targets) == 1 and isinstance(st.targets[0], ast.Tuple) and \
+                        all(isinstance(t, ast.Name) for t in st.targets[0].elts):
+                    val = _sub(st.value, env)
+                    if not (isinstance(val, ast.Tuple) and len(val.elts) == len(st.targets[0].elts)):
+                        raise AnalysisError("Channel.send: unsupported statement `%s`" % A.norm(st)[:60])
+                    e2 = dict(env)
+                    for t, v in zip(st.targets[0].elts, val.elts):
+                        e2[t.id] = v
+                    new.append((guards, writes, e2, done))
                 elif isinstance(st, ast.If):
                     tst = _sub(st.test, env)
                     pos = True
@@ -486,12 +495,50 @@ def check_channel(ctx, rep, rule="R05.4"):
         raise AnalysisError("Channel.FRAME_HEADER does not fold to a Struct")
     rep.floor(rule, "symbolic paths of Channel.send", len(paths), 4)
     info = {"header": hdr.format, "flusher": flusher, "paths": len(paths)}
-    for guards, writes, env in paths:
-        comp = None
+    thr_v = ctx.class_const("rpyc.core.channel.Channel", "COMPRESSION_THRESHOLD")
+
+    def enabled(guards, c, n):
+        """are the compression-related guards of a path satisfied when self.compress == c and len(data) == n?"""
+        from ..safeeval import ev as _ev, CannotEval as _CE
+
+        class Env(dict):
+            def lookup(self, e):
+                d = A.dotted(e)
+                if d == "self.compress":
+                    return True, c
+                if d and d.startswith("self.") and d.count(".") == 1:
+                    try:
+                        return True, ctx.class_const("rpyc.core.channel.Channel", d[5:])
+                    except AnalysisError:
+                        pass
+                return False, None
+
+        def hook(call):
+            if A.call_name(call) == "len" and len(call.args) == 1 and A.src(call.args[0]) == prm:
+                return True, n
+            return False, None
         for gexp, pol in guards:
-            s = A.src(gexp)
-            if "self.compress" in s:
-                comp = pol
+            if "self.compress" not in A.src(gexp):
+                continue
+            try:
+                if bool(_ev(gexp, Env(), {"*": hook})) != pol:
+                    return False
+            except _CE:
+                return None
+        return True
+    decision_bad = []
+    for guards, writes, env in paths:
+        pay_compressed = any("zlib.compress(" in A.src(w) for w, _ in writes) or any(
+            "zlib.compress(" in A.src(v) for v in env.values())
+        for c in (False, True):
+            for n in (0, 1, thr_v - 1, thr_v, thr_v + 1, 70000):
+                en = enabled(guards, c, n)
+                if en is None:
+                    decision_bad.append("guard not evaluable")
+                elif en and pay_compressed != (bool(c) and n > thr_v):
+                    decision_bad.append("compress=%s, %d bytes -> %s" % (c, n, "compressed" if pay_compressed else "plain"))
+    for guards, writes, env in paths:
+        comp = any("zlib.compress(" in A.src(w) for w, _ in writes) or any("zlib.compress(" in A.src(v) for v in env.values())
         atoms = []
         for w, st in writes:
             atoms += flatten_concat(w)
@@ -557,25 +604,12 @@ def check_channel(ctx, rep, rule="R05.4"):
                 why.append("%d payload pieces" % len(mid))
         rep.ob(rule, key, ok, "header(len(payload), %s) + payload + flusher, in order" % flag if ok else "; ".join(why),
                ctx.loc(writes[0][1]) if writes else f.loc)
-    # compression decision depends only on self.compress and the size threshold
-    conds = set()
-    for guards, writes, env in paths:
-        for gexp, pol in guards:
-            if "self.compress" in A.src(gexp):
-                conds.add(A.src(gexp))
-    thr = None
-    okcond = False
-    for c in conds:
-        e = ast.parse(c, mode="eval").body
-        if isinstance(e, ast.BoolOp) and isinstance(e.op, ast.And) and len(e.values) == 2 and \
-                A.src(e.values[0]) == "self.compress" and isinstance(e.values[1], ast.Compare):
-            cmp_ = e.values[1]
-            if A.src(cmp_.left) == "len(%s)" % prm and len(cmp_.ops) == 1:
-                thr = (type(cmp_.ops[0]).__name__, A.src(cmp_.comparators[0]))
-                okcond = True
-    rep.ob(rule, "Channel.send: compression decided by the switch and the payload size only", okcond and len(conds) == 1,
-           "condition `%s`" % list(conds)[0] if okcond and len(conds) == 1 else "compression condition(s): %s" % sorted(conds),
-           f.loc, kind="site")
+    # compression decision: semantic evaluation of the path guards on (switch, size) valuations
+    rep.ob(rule, "Channel.send: compression decided by the switch and the payload size only", not decision_bad,
+           "compressed exactly when self.compress and len(data) > COMPRESSION_THRESHOLD (12 valuations x %d paths)" % len(paths)
+           if not decision_bad else "the compressed/plain choice is wrong for: %s" % "; ".join(sorted(set(decision_bad))[:4]),
+           f.loc, kind="table")
+    thr = ("Gt", "self.COMPRESSION_THRESHOLD")
     info["threshold"] = thr
 
     # ---- recv (symbolic: locals are inlined, the two class constants folded)
